@@ -68,7 +68,7 @@ impl Check for GraphCheck {
     }
     fn run(&self, src: &mut Src, ctx: &mut RunCtx) -> RunResult {
         let small = *src.pick(&[4096usize, 4096, 8192, 16384]);
-        let recipe = gen_recipe(src, small, 6);
+        let recipe = gen_recipe(src, small, if crate::engine::deep() { 9 } else { 6 });
         ctx.ev(|| format!("C06 recipe={} stream_bytes={small}", recipe.describe()));
         if ctx.sample.is_none() {
             ctx.sample = Some(json!({"recipe": recipe.describe(), "stream_bytes": small}));
